@@ -353,12 +353,23 @@ class CodeBuilder:
         if cls is not None and not is_dataclass_dict_mixin(cls):
             return cls.__dict__[method_name]
 
+    def _get_lazy_type_args(self) -> str:
+        # a lazily compiled method of a generic specialisation must be
+        # rebuilt for the same type arguments, not for the bare class
+        if not self.initial_type_args:
+            return ""
+        self.ensure_object_imported(
+            tuple(self.initial_type_args), "__mashumaro_type_args__"
+        )
+        return "type_args=__mashumaro_type_args__,"
+
     def _add_unpack_method_lines_lazy(self, method_name: str) -> None:
         if self.default_dialect is not None:
             self.add_type_modules(self.default_dialect)
         self.add_line(
             f"CodeBuilder("
             f"cls,"
+            f"{self._get_lazy_type_args()}"
             f"first_method='{method_name}',"
             f"allow_postponed_evaluation=False,"
             f"format_name='{self.format_name}',"
@@ -824,6 +835,7 @@ class CodeBuilder:
         self.add_line(
             "CodeBuilder("
             "self.__class__,"
+            f"{self._get_lazy_type_args()}"
             f"first_method='{method_name}',"
             "allow_postponed_evaluation=False,"
             f"format_name='{self.format_name}',"
